@@ -27,7 +27,8 @@ PROPS = {
     },
     "C19": {
         "units": ["budget"],
-        "kani": {"quick": [], "thorough": []},
+        "kani": {"quick": ["c19_derived_order_complete"],
+                 "thorough": ["c19_get_budget_bounded", "c19_make_annex_bounded", "c19_padding_end_to_end_bounded"]},
         "level": "proof",
         "level_text": "Unbounded deductive proof (Verus) of is_budget_valid / get_padding / the cost<->weight conversions against "
                       "spec functions written from the property (CompactSize lengths, serialized stack length, ceil-weight): "
